@@ -37,8 +37,9 @@ class Contract:
         self.float_mode = kw.pop("float_mode", "REAL")
         self.compare_state = kw.pop("compare_state", True)
         self.skip_config = kw.pop("skip_config", None)
+        self.raises = kw.pop("raises", None)  # {exception class name: condition text}: raised iff condition
         self.opts = kw
-        if kw.keys() - {"note", "canaries", "max_paths"}:
+        if kw.keys() - {"note", "canaries", "max_paths", "replay_candidates"}:
             raise TypeError("unknown contract options %s" % sorted(kw))
 
 
@@ -451,6 +452,39 @@ def verify_config(I, c, fn, specf, cfg):
                     st = "failed" if status == "sat" else "undecided"
                 detail = "real %s vs spec %s: %s | %s" % (real.describe(), sp.describe(), msg, notes)
             res.append(Obligation(name, c.target, cfg, st, detail, model, ms=1000 * (time.time() - t0)))
+        # exceptional postconditions: an exception of class E is raised iff its condition holds
+        if c.raises is not None:
+            t1 = time.time()
+            oname = "%s#%d:raises-table (%s)" % (tag, k, real.describe())
+            try:
+                conds = {}
+                for ecls, text in c.raises.items():
+                    conds[ecls] = I.pure(S.expr_fn(text, [], dict(args1)))
+                if real.kind == "raise":
+                    en = real.exc.cls.name
+                    if en not in conds:
+                        model, status = model_to_inputs(I, ctx, None)
+                        res.append(Obligation(oname, c.target, cfg, "failed" if status == "sat" else "undecided",
+                                              "raises %s which the contract does not allow | %s" % (en, notes), model,
+                                              ms=1000 * (time.time() - t1), kind="raises"))
+                    else:
+                        g = conds[en]
+                        ok_ = ctx.entails(g)
+                        model, status = (None, None) if ok_ else model_to_inputs(I, ctx, g)
+                        res.append(Obligation(oname, c.target, cfg, "discharged" if ok_ else
+                                              ("failed" if status == "sat" else "undecided"),
+                                              "raises %s only if: %s | %s" % (en, c.raises[en], notes), model,
+                                              ms=1000 * (time.time() - t1), kind="raises"))
+                else:
+                    g = z3.And([z3.Not(v) for v in conds.values()]) if conds else z3.BoolVal(True)
+                    ok_ = ctx.entails(g)
+                    model, status = (None, None) if ok_ else model_to_inputs(I, ctx, g)
+                    res.append(Obligation(oname, c.target, cfg, "discharged" if ok_ else
+                                          ("failed" if status == "sat" else "undecided"),
+                                          "returns although a raise condition holds | %s" % notes, model,
+                                          ms=1000 * (time.time() - t1), kind="raises"))
+            except Unsupported as u:
+                res.append(Obligation(oname, c.target, cfg, "unsupported", str(u), kind="raises"))
         # extra postconditions on the real outcome
         for ei, (ename, text) in enumerate(c.ensures):
             t1 = time.time()
